@@ -233,13 +233,17 @@ Definition cycle_mixer (d : digraph) : res pham :=
 Definition rmap {A B} (f : A -> B) (r : res A) : res B :=
   match r with Ok x => Ok (f x) | Raise => Raise | Unspecified => Unspecified end.
 
-(* max_weight_cycle: (cost, mixer) *)
+(* max_weight_cycle: the cost Hamiltonian ... *)
+Definition mwc_cost (d : digraph) (constrained : bool) : res ham :=
+  if constrained then loss_hamiltonian d
+  else happ (loss_hamiltonian d) (hmul 3 (happ (net_flow_constraint d) (out_flow_constraint d))).
+(* ... and (cost, mixer) *)
 Definition max_weight_cycle (d : digraph) (constrained : bool) : res (pham * pham) :=
   if constrained then
-    match loss_hamiltonian d, cycle_mixer d with
+    match mwc_cost d true, cycle_mixer d with
     | Ok c, Ok m => Ok (embed c, m) | _, _ => Raise end
   else
-    match happ (loss_hamiltonian d) (hmul 3 (happ (net_flow_constraint d) (out_flow_constraint d))) with
+    match mwc_cost d false with
     | Ok c => Ok (embed c, x_mixer (map fst (wired d)))
     | _ => Raise
     end.
@@ -252,6 +256,12 @@ Definition out_flow_obj (d : digraph) (b : Z -> bool) : Q :=
   sumQ (fun n => let s := selq b (out_edges d n) in 4 * s * (s - 1)) (dnodes d).
 Definition net_flow_obj (d : digraph) (b : Z -> bool) : Q :=
   sumQ (fun n => let s := selq b (out_edges d n) - selq b (in_edges d n) in 4 * s * s) (dnodes d).
+
+(* loss: sum over edges of log(c_e) z_e *)
+Definition loss_obj (d : digraph) (b : Z -> bool) : Q :=
+  sumQ (fun we => snd (snd we) * zval b (fst we)) (wired d).
+Definition mwc_obj (d : digraph) (constrained : bool) (b : Z -> bool) : Q :=
+  if constrained then loss_obj d b else loss_obj d b + 3 * (net_flow_obj d b + out_flow_obj d b).
 
 (* ------------------------------------------------------------------ correspondence check *)
 Fixpoint ins (x : Z * Z) (l : pword) : pword :=
